@@ -11,6 +11,7 @@ import RV.Base.Proto
     spell 0|1                            → ok      (also print the exact lexical forms; development diagnostic)
     relit <dt|-> <lit>                   → relit|ill|val|valid|back|idem|val(normalize())|eq(ref)|eq(old)[|spell…]
         new = Literal(old) / Literal(old, datatype=dt); ref = Literal(str(new), datatype=new.datatype, normalize=False)
+    eqpy <lit> <pyspec>                  → eqpy|1|0|NotImplemented      Literal.eq(plain Python object)
     skip                                 → unmodelled   (the harness declares the case outside the model)
   pyspec: int i | bool 0|1 | dec 0|1 coeff exp | str cps | date y m d | time h mi s us tz|- |
           datetime y m d h mi s us tz|- | td us | dur years months us
@@ -224,6 +225,16 @@ def step (st : St) : List String → St × String
     match optDt? d, litSpec? r with
     | some d, some (o, []) => (st, relitLine st o d)
     | _, _ => (st, "bad-op")
+  | "eqpy" :: r =>
+    match litSpec? r with
+    | some (.lit l, r') =>
+      match pySpec? r' with
+      | some (v, []) =>
+        (st, match l.eqPy v with | some true => "eqpy|1" | some false => "eqpy|0" | none => "eqpy|NotImplemented")
+      | _ => (st, "bad-op")
+    | some (.unmodelled, _) => (st, "unmodelled")
+    | some (.raises, _) => (st, "eqpy|raise")
+    | none => (st, "bad-op")
   | "eq" :: r =>
     match litSpec? r with
     | some (a, r') =>
